@@ -56,7 +56,7 @@ def run(ctx):
         k = len(sets)
         ctx.add(Harness('C26_file_k%d_%s' % (k, opsname(sets)), VERIF + '/harness/C26_file.c',
                         defines=defs + ['K=%d' % k, 'VF_MAXCOPY=8', 'VF_FS_FSIZE=%d' % (16 * (k + 1))] + ['OPS%d=0x%x' % (i, s) for i, s in enumerate(sets)], unwind=k + 2,
-                        unwindset=FUS + ['main.3:%d' % (k + 2)], flags=['--slice-formula'], timeout=900 if ctx.tier == 'quick' else 3000, mem_gb=16, functions=FFUN, stubs=FSTUBS,
+                        unwindset=FUS + ['main.3:%d' % (k + 2)], timeout=900 if ctx.tier == 'quick' else 3000, mem_gb=16, functions=FFUN, stubs=FSTUBS,
                         bounds='initialise on an empty directory, then every sequence of %d operations where position i draws from op set %s {bit 0 put,1 control-put,2 get,3 control-get,4 last,5 nearest,6 range-get}, '
                                'seqnums 0..6, payloads 1-2 symbolic bytes; FIX8_MAX_MSG_LENGTH scaled to %d in filepersist.cpp; files <= %d bytes' % (k, [hex(s) for s in sets], MSGLEN, 16 * (k + 1)),
                         desc='real FilePersister over the POSIX file model against a reference map + control record'))
